@@ -447,6 +447,14 @@ class Interp(object):
     def external_module(self, name):
         if name in ("numpy", "numpy.linalg"):
             return self.np if name == "numpy" else self.np.linalg
+        if name in ("os", "os.path"):
+            from .npmodel import NSModel
+            import os as _os
+            pure = {n: Builtin("os.path." + n, getattr(_os.path, n)) for n in ("splitext", "basename", "dirname", "join", "split", "normpath", "isabs")}
+            pure["exists"] = Builtin("os.path.exists", lambda p: p in self.fs or ("joblib:" + p) in self.fs)
+            pure["isfile"] = pure["exists"]
+            path = NSModel("os.path", pure)
+            return path if name == "os.path" else NSModel("os", {"path": path, "sep": "/", "environ": {}})
         return Opaque(name)
 
     def get_function(self, qualname):
@@ -637,7 +645,12 @@ class Interp(object):
         cenv = Env(env, c.ns)
         for s in st.body:
             if isinstance(s, ast.FunctionDef):
+                # defaults / decorators see the class namespace, the body does not (Python scoping)
                 fv = self.make_function(s, cenv, mod, owner=c)
+                if isinstance(fv, FuncV):
+                    fv.env = env
+                    if fv.setter is not None:
+                        fv.setter.env = env
                 c.ns[s.name] = fv
             else:
                 self.exec_stmt(s, cenv, mod)
@@ -1406,6 +1419,13 @@ class Interp(object):
             return ExcV(f, tuple(args))
         if isinstance(f, TypeTok):
             return self.builtins["__construct__"](f, args, kwargs)
+        from .npmodel import DType, as_exact
+        if isinstance(f, DType):
+            # np.float64(x), np.int32(x): scalar constructors
+            x = args[0] if args else 0
+            if f.kind in "iu":
+                return self.builtins["__construct__"](TYPE_INT, [x], {})
+            return self.builtins["__construct__"](TYPE_FLOAT, [x], {})
         if isinstance(f, Obj):
             if "__call__" in f.fields:
                 return self.call(f.fields["__call__"], args, kwargs)
